@@ -30,3 +30,19 @@ Print Assumptions C11_candidates_are_applications.
 Theorem C11_candidates_objective_truthful_all : stmt_neighbors_objective_truthful.
 Proof. exact neighbors_objective_truthful. Qed.
 Print Assumptions C11_candidates_objective_truthful_all.
+
+(** "each candidate ... is itself a structurally valid schedule": over a well-formed network, every candidate produced
+    from a schedule reachable by histories with valid Path arguments and fit_reassign only between different tours
+    ([wreachable]) is again such a schedule (the swaps build only valid Paths, and path_exchange fits only the freshly
+    created dummy into another tour), hence has valid tours, exact listings, formation and track limits and exact
+    depot usage. *)
+From RS Require Import NetSpec SchedStruct SwapsStmts2 SwapsFacts2.
+Theorem C11_histories_included : forall nw, stmt_wreachable_sub nw.
+Proof. exact wreachable_sub. Qed.
+Print Assumptions C11_histories_included.
+Theorem C11_candidates_stay_in_valid_histories : forall nw, stmt_neighbors_wreachable nw.
+Proof. exact neighbors_wreachable. Qed.
+Print Assumptions C11_candidates_stay_in_valid_histories.
+Theorem C11_candidates_structurally_valid : forall nw, stmt_neighbors_structurally_valid nw.
+Proof. exact neighbors_structurally_valid. Qed.
+Print Assumptions C11_candidates_structurally_valid.
